@@ -1115,6 +1115,57 @@ def c06_oracle(script, rec):
     return bad
 
 
+def c06_cxx_cases():
+    """Setting::getPath() across removals and additions: the path reported for a setting must resolve to that setting
+    whatever was asked of it (or of its neighbours) before the structure changed"""
+    cases = []
+    for agg, aty in ((b"l", 8), (b"a", 7), (b"g", 1)):
+        for k in (0, 1, 2):
+            body = ["init", "xinit", "xadd . %s %d" % (hx(agg), aty)]
+            n = 4
+            for i in range(n):
+                if aty == 8:        # list of groups, each with a member and a nested list
+                    body += ["xadd 0 - 1", "xadd 0/%d %s 2" % (i, hx(b"host")), "xset i 0/%d/0 %d" % (i, i), "xadd 0/%d %s 8" % (i, hx(b"sub")),
+                             "xadd 0/%d/1 - 2" % i]
+                elif aty == 7:
+                    body += ["xadd 0 - 2", "xset i 0/%d %d" % (i, i)]
+                else:
+                    body += ["xadd 0 %s 1" % hx(b"m%d" % i), "xadd 0/%d %s 2" % (i, hx(b"host"))]
+            def paths(m):
+                ps = []
+                for i in range(m):
+                    ps.append("0/%d" % i)
+                    if aty == 8:
+                        ps += ["0/%d/0" % i, "0/%d/1" % i, "0/%d/1/0" % i]
+                    elif aty == 1:
+                        ps.append("0/%d/0" % i)
+                return ps
+            body += ["xpath %s" % q for q in paths(n)] + ["xinfo 0/%d" % (k + 1)]
+            body.append("xrmi 0 %d" % k if aty != 1 else "xrm 0 %s" % hx(b"m%d" % k))
+            body += ["xpath %s" % q for q in paths(n - 1)] + ["xinfo 0/%d" % k, "dump"]
+            # add again behind, remove the first, ask again
+            body.append("xadd 0 - %d" % (1 if aty == 8 else 2) if aty != 1 else "xadd 0 %s 1" % hx(b"zz"))
+            body += ["xpath %s" % q for q in ["0/%d" % i for i in range(n)]]
+            body.append("xrmi 0 0" if aty != 1 else "xrmi 0 0")
+            body += ["xpath %s" % q for q in ["0/%d" % i for i in range(n - 1)]] + ["dump", "destroy"]
+            cases.append("\n".join(body) + "\n")
+    return cases
+
+
+def c06_cxx_oracle(script, rec):
+    bad = []
+    if rec.get("status", "ok") != "ok":
+        bad.append("process status %s: %s" % (rec["status"], " ".join(rec.get("stderr", "").split()[:30])))
+    for op, out in align(script, rec["impl"]):
+        f = op.split(" ")
+        if f[0] == "xpath" and out and out[0].startswith("R s"):
+            back = out[0].split(" back=")[-1]
+            if back != "n" + f[1]:
+                bad.append("getPath() of setting %s reports %r, which resolves to %s" % (
+                    f[1], unhx(out[0].split(" ")[1][1:]), back))
+    return bad
+
+
 def run_c06(ctx):
     res = Result()
     rc = replay_cases(ctx)
@@ -1133,6 +1184,11 @@ def run_c06(ctx):
     res.samples = [cases[0][:1500]] if cases else []
     correspond(ctx, res, cases, drop_prefixes=("E ", "A "), oracle=c06_oracle,
                known=lambda s, r, o: match_known("C06", s, r, o), per_proc=4)
+    if rc is None and not res.violations:
+        xcases = c06_cxx_cases()
+        res.distribution["getPath_histories_cxx"] = len(xcases)
+        correspond(ctx, res, xcases, drop_prefixes=("E ",), line_filter=c17_filter, oracle=c06_cxx_oracle, variant="cxx",
+                   known=lambda s, r, o: match_known("C06", s, r, o), label="cxx")
     return res
 
 
@@ -2086,7 +2142,16 @@ def run_c13(ctx):
             "xreads %s" % hx(b"a = ;"), "xclear", "xadd . h62 2", "xrm . h62", "xadd . h71 7", "xadd 0 - 5", "xrmi 0 0",
             "xwritef %s" % hx(b"out.cfg"), "xreadf %s" % hx(b"out.cfg"), "xclear", "destroy"]) + "\n"
 
-        def run_cxx(k):
+        # two Config objects whose lifetimes overlap without nesting (the hot-reload idiom: the new one is built, then
+        # the old one is deleted: the harness's 'init' on a live Config) and a temporary Config with a nested lifetime
+        cscript2 = "\n".join([
+            "init", "xinit", "xadd . h61 1", "xset i 0 5", "init", "xinit", "xadd . h62 2", "xset l 0 7",
+            "xreads %s" % hx(b"a = 1;\nb = { c = [1, 2]; d = \"x\"; };\n"), "xtemp", "xadd . h63 4", "xset s 2 h78",
+            "xlook i h61", "xtemp", "xreads %s" % hx(b"q = ( 1, \"s\" );"), "xadd . h7a 5", "destroy"]) + "\n"
+        cscripts = [cscript, cscript2]
+
+        def run_cxx(k, which=0):
+            cscript = cscripts[which]
             wd = runner.workdir()
             sf = os.path.join(wd, ".script")
             open(sf, "w").write(cscript)
@@ -2102,28 +2167,32 @@ def run_c13(ctx):
                 rc, outp, errp = "HANG", "", ""
             _sh.rmtree(wd, ignore_errors=True)
             return rc, outp.splitlines(), errp
-        rc, base, _ = run_cxx(None)
-        counts = [int(l.split(" ")[1]) for l in base if l.startswith("N ")]
-        if rc != 0 or len(counts) < 3:
-            res.corr_broken.append("C++ fault scenario: fault-free run failed rc=%s" % rc)
-        else:
-            first = counts[1] + 1          # allocations after Config::Config (init, xinit)
-            last = counts[-1]
-            ks = list(range(first, last + 1))
-            stats["cxx"] = {"allocations": last, "faults_injected": len(ks)}
-            for k in ks:
-                rc, out, err = run_cxx(k)
-                total += 1
-                thr = [l for l in out if l == "R throw bad_alloc"]
-                if not (rc == 0 and len(thr) == 1 and out[-1] == "R throw bad_alloc"):
-                    what = ("the process died (status %s: %s)" % (rc, " ".join(err.split()[:12]))) if rc != 0 else \
-                           "the call returned without std::bad_alloc"
-                    res.violations.append(dict(name="cxxfault_%d" % k, replay=(
-                        "# property C13 -- C++ binding: allocation #%d made to fail inside a Config/Setting call: %s\n"
-                        "# replay: DRV_FAULT_K=%d <cxxfault build of harness/drv.c + drvxx.cc> <this script>\n%s#--- transcript tail:\n#%s\n" % (
-                            k, what, k, cscript, "\n#".join(out[-5:])))))
+        for which in range(len(cscripts)):
+            cscript = cscripts[which]
+            rc, base, _ = run_cxx(None, which)
+            counts = [int(l.split(" ")[1]) for l in base if l.startswith("N ")]
+            if rc != 0 or len(counts) < 3:
+                res.corr_broken.append("C++ fault scenario %d: fault-free run failed rc=%s" % (which, rc))
+            else:
+                first = counts[1] + 1          # allocations after Config::Config (init, xinit)
+                last = counts[-1]
+                ks = list(range(first, last + 1))
+                stats["cxx%d" % which] = {"allocations": last, "faults_injected": len(ks)}
+                for k in ks:
                     if len(res.violations) >= 3:
                         break
+                    rc, out, err = run_cxx(k, which)
+                    total += 1
+                    thr = [l for l in out if l == "R throw bad_alloc"]
+                    if not (rc == 0 and len(thr) == 1 and out[-1] == "R throw bad_alloc"):
+                        what = ("the process died (status %s: %s)" % (rc, " ".join(err.split()[:12]))) if rc != 0 else \
+                               "the call returned without std::bad_alloc"
+                        res.violations.append(dict(name="cxxfault_%d" % k, replay=(
+                            "# property C13 -- C++ binding: allocation #%d made to fail inside a Config/Setting call: %s\n"
+                            "# replay: DRV_FAULT_K=%d <cxxfault build of harness/drv.c + drvxx.cc> <this script>\n%s#--- transcript tail:\n#%s\n" % (
+                                k, what, k, cscript, "\n#".join(out[-5:])))))
+                        if len(res.violations) >= 3:
+                            break
     # known finding F19: unchecked strdup in the C++ exception classes (identified by census rows)
     import re as _re
     cen = open(os.path.join(COQ, "gen", "Census.v")).read()
@@ -3131,6 +3200,19 @@ C17_CORPUS = [
     "init\nxinit\nxadd . h61 1\nxinfo 0\ndeffmt 1\nxinfo 0\ndeffmt 0\nxinfo 0\ndestroy\n",
     # auto-convert escape of assertType only for numbers
     "init\nxinit\noption 1 1\nxadd . h73 4\nxadd . h62 5\nxadd . h66 3\nxcast i 0\nxcast f 1\nxcast i 2\nxset i 0 3\nxset f 1 x3ff0000000000000\nxlook i h73\nxlook f h62\ndump\ndestroy\n",
+]
+
+
+# a ParseException that is kept (copied) must keep reporting what it reported when it was caught, whatever happens to
+# its Config afterwards: the harness keeps a copy of the last one and re-reads it after clear / re-read / destruction
+_BADF = hx(b"bad.cfg")
+C17_CORPUS += [
+    "init\nxinit\nfs put %s %s\nxreadf %s\nxclear\nxadd . h61 1\ndestroy\n" % (_BADF, hx(b"a = 1;\nb = ;\n"), _BADF),
+    "init\nxinit\nfs put %s %s\nxreadf %s\nxreads %s\nxinfo .\ndestroy\n" % (_BADF, hx(b"a = 1;\n\nb = [1, \"x\"];\n"), _BADF, hx(b"ok = 1;")),
+    "init\nxinit\nfs put %s %s\nxreadf %s\ndestroy\n" % (_BADF, hx(b"a = 1; a = 2;\n"), _BADF),
+    "init\nxinit\nfs put %s %s\nfs put %s %s\nxreadf %s\nxreadf %s\nxclear\ninit\nxinit\nxadd . h61 1\ndestroy\n" % (
+        hx(b"inc.cfg"), hx(b"x = 1;\ny = ;\n"), _BADF, hx(b"a = 1;\n@include \"inc.cfg\"\n"), _BADF, _BADF),
+    "init\nxinit\nxreads %s\nxclear\nxreads %s\ndestroy\n" % (hx(b"a = 1;\nb = ;"), hx(b"a = ;")),
 ]
 
 
